@@ -29,13 +29,35 @@ type opRec struct {
 	Kind string // "W" write, "R" read, "C" close, "D" deadline
 	N    int
 	Err  bool
+	Head []byte // first bytes of a Write
 }
 
 var errInjected = errors.New("injected transport fault")
 
+// seqLog: one ordered log shared by a transport and a handler (observable actions, codes of coq/Skel/Accept.v)
+type seqLog struct {
+	mu    sync.Mutex
+	codes []int
+}
+
+func (l *seqLog) add(c int) {
+	if l == nil {
+		return
+	}
+	l.mu.Lock()
+	l.codes = append(l.codes, c)
+	l.mu.Unlock()
+}
+func (l *seqLog) snapshot() []int {
+	l.mu.Lock()
+	defer l.mu.Unlock()
+	return append([]int(nil), l.codes...)
+}
+
 type memConn struct {
 	mu   sync.Mutex
 	cond *sync.Cond
+	seq  *seqLog
 
 	chunks    [][]byte // pending inbound data; one Read never crosses a chunk boundary
 	eofAtEnd  bool     // when chunks run out: true = io.EOF (peer vanished), false = block until closed
@@ -93,12 +115,12 @@ func (c *memConn) Read(p []byte) (int, error) {
 	idx := c.nRead
 	c.nRead++
 	if idx == c.failRead {
-		c.ops = append(c.ops, opRec{"R", 0, true})
+		c.ops = append(c.ops, opRec{Kind: "R", Err: true})
 		return 0, errInjected
 	}
 	for {
 		if c.closed {
-			c.ops = append(c.ops, opRec{"R", 0, true})
+			c.ops = append(c.ops, opRec{Kind: "R", Err: true})
 			return 0, net.ErrClosed
 		}
 		if len(c.chunks) > 0 {
@@ -109,15 +131,15 @@ func (c *memConn) Read(p []byte) (int, error) {
 			} else {
 				c.chunks[0] = ch[n:]
 			}
-			c.ops = append(c.ops, opRec{"R", n, false})
+			c.ops = append(c.ops, opRec{Kind: "R", N: n})
 			return n, nil
 		}
 		if c.eofAtEnd || c.peerGone {
-			c.ops = append(c.ops, opRec{"R", 0, true})
+			c.ops = append(c.ops, opRec{Kind: "R", Err: true})
 			return 0, io.EOF
 		}
 		if !c.rdeadline.IsZero() && !time.Now().Before(c.rdeadline) {
-			c.ops = append(c.ops, opRec{"R", 0, true})
+			c.ops = append(c.ops, opRec{Kind: "R", Err: true})
 			return 0, os.ErrDeadlineExceeded
 		}
 		c.cond.Wait()
@@ -130,12 +152,12 @@ func (c *memConn) Write(p []byte) (int, error) {
 	c.nWrite++
 	if c.closed {
 		c.writeAfterClose++
-		c.ops = append(c.ops, opRec{"W", 0, true})
+		c.ops = append(c.ops, opRec{Kind: "W", Err: true})
 		c.mu.Unlock()
 		return 0, net.ErrClosed
 	}
 	if idx == c.failWrite {
-		c.ops = append(c.ops, opRec{"W", 0, true})
+		c.ops = append(c.ops, opRec{Kind: "W", Err: true})
 		c.mu.Unlock()
 		return 0, errInjected
 	}
@@ -146,7 +168,17 @@ func (c *memConn) Write(p []byte) (int, error) {
 		err = io.ErrShortWrite
 	}
 	c.writes = append(c.writes, data)
-	c.ops = append(c.ops, opRec{"W", len(data), err != nil})
+	c.ops = append(c.ops, opRec{Kind: "W", N: len(data), Err: err != nil, Head: append([]byte(nil), data[:minI(len(data), 8)]...)})
+	if c.seq != nil {
+		code := 1
+		if len(data) > 0 && data[0]&15 == 8 {
+			code = 2
+		}
+		if bytes.HasPrefix(data, []byte("HTTP/")) || bytes.HasPrefix(data, []byte("GET ")) {
+			code = 5
+		}
+		c.seq.add(code)
+	}
 	hook := c.onWrite
 	peer := c.peer
 	gate, entered := c.gate, c.gateEntered
@@ -175,7 +207,8 @@ func (c *memConn) Close() error {
 	c.closeCnt++
 	already := c.closed
 	c.closed = true
-	c.ops = append(c.ops, opRec{"C", 0, false})
+	c.ops = append(c.ops, opRec{Kind: "C"})
+	c.seq.add(3)
 	peer := c.peer
 	c.cond.Broadcast()
 	c.mu.Unlock()
@@ -199,7 +232,7 @@ func (c *memConn) deadline(t time.Time, read bool) error {
 	defer c.mu.Unlock()
 	idx := c.nDead
 	c.nDead++
-	c.ops = append(c.ops, opRec{"D", 0, idx == c.failDead})
+	c.ops = append(c.ops, opRec{Kind: "D", Err: idx == c.failDead})
 	if idx == c.failDead {
 		return errInjected
 	}
@@ -267,6 +300,7 @@ type evRec struct {
 }
 
 type recHandler struct {
+	seq     *seqLog
 	mu      sync.Mutex
 	evs     []evRec
 	onMsg   func(s *gws.Conn, op gws.Opcode, p []byte) // optional extra behaviour (runs after recording)
@@ -285,20 +319,23 @@ func (h *recHandler) events() []evRec {
 	defer h.mu.Unlock()
 	return append([]evRec(nil), h.evs...)
 }
-func (h *recHandler) OnOpen(s *gws.Conn)           { h.add(evRec{Kind: "open"}) }
-func (h *recHandler) OnClose(s *gws.Conn, e error) { h.add(evRec{Kind: "close", Err: e}) }
+func (h *recHandler) OnOpen(s *gws.Conn)           { h.seq.add(10); h.add(evRec{Kind: "open"}) }
+func (h *recHandler) OnClose(s *gws.Conn, e error) { h.seq.add(11); h.add(evRec{Kind: "close", Err: e}) }
 func (h *recHandler) OnPing(s *gws.Conn, p []byte) {
+	h.seq.add(12)
 	h.add(evRec{Kind: "ping", Opcode: 9, Payload: append([]byte(nil), p...)})
 	if h.onPing != nil {
 		h.onPing(s, p)
 	}
 }
 func (h *recHandler) OnPong(s *gws.Conn, p []byte) {
+	h.seq.add(13)
 	h.add(evRec{Kind: "pong", Opcode: 10, Payload: append([]byte(nil), p...)})
 }
 func (h *recHandler) OnMessage(s *gws.Conn, m *gws.Message) {
 	p := append([]byte(nil), m.Bytes()...)
 	op := m.Opcode
+	h.seq.add(14)
 	h.add(evRec{Kind: "msg", Opcode: int(op), Payload: p})
 	if h.keepMsg {
 		h.mu.Lock()
@@ -452,4 +489,11 @@ func runWithTimeout(d time.Duration, f func()) bool {
 	case <-time.After(d):
 		return false
 	}
+}
+
+func minI(a, b int) int {
+	if a < b {
+		return a
+	}
+	return b
 }
